@@ -7,6 +7,11 @@
 (*   Other(delete | create): for servers whose triple addresses one record  *)
 (*   of a collection, another record of that collection is deleted/created  *)
 (*   (a no-op for the other servers)                                        *)
+(*   PullOnce(read mask): a Pull with a read mask, first message only        *)
+(*   RaceOpen(value): open+cancel a stream, then Update(value) with a new    *)
+(*   Pull opened between its commit and its publication                      *)
+(*   TimedUpdate(value) . Update(value') . Wait: an Update carrying a short   *)
+(*   duration (where the resource has one), superseded at once, then a delay *)
 (* with 1..6 updates and 0..2 streams open at any time.  Values and masks  *)
 (* are indices: the harness maps a value index to one of the 3-4 far-apart *)
 (* well-formed values of the server's resource type (1-4, 7, 8; 5, 6: a    *)
@@ -31,7 +36,11 @@ NilM == [nil |-> TRUE, sel |-> <<>>]
 ReadMask(z) ==
   IF Flip(z, 25) THEN NilM
   ELSE [nil |-> FALSE, sel |-> R({ <<>>, <<R(0..7)>>, <<R(0..7)>>, <<R(0..7), R(0..7)>>, <<R(0..7), R(0..7), R(0..7)>>,
-                                   <<R(20..59)>>, <<R(20..59)>>, <<R(20..59), R(20..59)>>, <<R(0..7), R(20..59)>> })]
+                                   <<R(20..59)>>, <<R(20..59)>>, <<R(20..59), R(20..59)>>, <<R(0..7), R(20..59)>>,
+                                   \* 100..179: a field together with one of its sub-fields (>= 140: sub-field first); the
+                                   \* same path twice where the field is not a message
+                                   <<R(100..179)>>, <<R(100..179)>>, <<R(0..7), R(100..179)>>, <<R(100..179), R(20..59)>>,
+                                   <<R(0..7), R(0..7), R(0..7), R(0..7)>> })]
 UpdateMask(z) ==
   IF Flip(z, 45) THEN NilM
   ELSE [nil |-> FALSE, sel |-> R({ <<>>, <<R(0..7)>>, <<R(0..7)>>, <<R(0..7), R(0..7)>>, <<R(0..7), R(0..7), R(0..7)>>,
@@ -46,9 +55,10 @@ Build(z, left, open, upd, last, acc) ==
     THEN IF upd = 0 THEN Append(acc, [Blank EXCEPT !.op = "Update", !.val = R(1..4), !.name = R(0..1)]) ELSE acc
     ELSE
       LET d == R(1..100)
-          kind == IF d <= 42 THEN "Update" ELSE IF d <= 58 THEN "Get" ELSE IF d <= 80 THEN "OpenPull"
-                  ELSE IF d <= 90 THEN "CloseStream" ELSE "Other"
-          k2 == IF kind = "OpenPull" /\ open >= 2 THEN "Update"
+          kind == IF d <= 38 THEN "Update" ELSE IF d <= 53 THEN "Get" ELSE IF d <= 71 THEN "OpenPull"
+                  ELSE IF d <= 79 THEN "CloseStream" ELSE IF d <= 87 THEN "Other" ELSE IF d <= 93 THEN "PullOnce"
+                  ELSE IF d <= 97 THEN "RaceOpen" ELSE "Timed"
+          k2 == IF kind \in {"OpenPull", "RaceOpen"} /\ open >= 2 THEN "Update"
                 ELSE IF kind = "CloseStream" /\ open = 0 THEN "OpenPull"
                 ELSE kind
           k3 == IF k2 = "Update" /\ upd >= 6 THEN "Get" ELSE k2
@@ -64,6 +74,19 @@ Build(z, left, open, upd, last, acc) ==
         [] k3 = "OpenPull" ->
              Build(z, left - 1, open + 1, upd, last,
                    Append(acc, [Blank EXCEPT !.op = "OpenPull", !.uo = Flip(z, 50), !.name = R(0..1)]))
+        [] k3 = "PullOnce" ->   \* a Pull with a read mask of which only the first message is read
+             Build(z, left - 1, open, upd, last, Append(acc, [Blank EXCEPT !.op = "PullOnce", !.name = R(0..1), !.mask = ReadMask(z)]))
+        [] k3 = "RaceOpen" ->   \* a stream is opened and cancelled, then a new Pull opens while an Update is between
+                                \* its commit and its publication; the new stream stays open
+             LET v == R(1..4) IN
+             Build(z, left - 1, open + 1, upd + 1, v, Append(acc, [Blank EXCEPT !.op = "RaceOpen", !.val = v, !.name = R(0..1)]))
+        [] k3 = "Timed" ->      \* an Update carrying a short duration, at once a plain Update, then time passes
+             LET v1 == R(1..4)
+                 v2 == R({1, 2, 3, 4} \ {v1}) IN
+             Build(z, left - 1, open, upd + 2, v2,
+                   acc \o << [Blank EXCEPT !.op = "TimedUpdate", !.val = v1, !.name = R(0..1)],
+                              [Blank EXCEPT !.op = "Update", !.val = v2, !.name = R(0..1)],
+                              [Blank EXCEPT !.op = "Wait"] >>)
         [] k3 = "Other" ->   \* which = 0: delete the other record, 1: (re)create it
              Build(z, left - 1, open, upd, last, Append(acc, [Blank EXCEPT !.op = "Other", !.which = R({0, 0, 1})]))
         [] OTHER ->
